@@ -19,8 +19,20 @@ func vOptCase(i int) Opt {
 	if i == 16 {
 		return Opt{}
 	}
-	if i == 17 {
+	switch i {
+	case 17:
 		return Opt{Complete: Bool(true)}
+	// partially filled option structs (the remaining fields are nil and take their defaults)
+	case 18:
+		return Opt{InnerPrefix: Bool(true), LeafPrefix: Bool(true)}
+	case 19:
+		return Opt{InnerPrefix: Bool(true)}
+	case 20:
+		return Opt{LeafPrefix: Bool(true)}
+	case 21:
+		return Opt{DedupValue: Bool(false)}
+	case 22:
+		return Opt{DedupValue: Bool(false), Complete: Bool(true)}
 	}
 	return Opt{
 		DedupValue:  Bool(i&1 != 0),
@@ -31,6 +43,9 @@ func vOptCase(i int) Opt {
 }
 
 func vOptDedup(i int) bool {
+	if i == 21 || i == 22 {
+		return false
+	}
 	if i >= 16 {
 		return true
 	}
@@ -42,8 +57,11 @@ func vOptComplete(i int) bool {
 	if i == 16 {
 		return false
 	}
-	if i == 17 {
+	if i == 17 || i == 18 || i == 22 {
 		return true
+	}
+	if i >= 18 {
+		return false
 	}
 	return i&8 != 0 || (i&2 != 0 && i&4 != 0)
 }
@@ -134,6 +152,30 @@ func vSkeleton(id int) []string {
 		return []string{"", "k", "ka", "kb", "z"}
 	case 12, 13: // lengths on and around 32/64/128/256 bytes (13: with diverging siblings)
 		return vLenDiverse(id - 12)
+	case 15, 16: // scale: 30000 (15) / 6000 (16) pseudo-random 8-byte keys over all byte values
+		// (15: > 32768 nodes, ids beyond 15 and 16 bits in legacy streams; big short-node tables)
+		cnt := 30000
+		if id == 16 {
+			cnt = 6000
+		}
+		x := uint64(88172645463325252)
+		ks := make([]string, 0, cnt)
+		for i := 0; i < cnt; i++ {
+			x ^= x << 13
+			x ^= x >> 7
+			x ^= x << 17
+			b := make([]byte, 8)
+			for j := range b {
+				b[j] = byte(x >> (uint(j) * 8))
+			}
+			// cluster the first two bytes so that deep levels exist as well
+			b[0] &= 0x0f
+			b[1] &= 0x3f
+			ks = append(ks, string(b))
+		}
+		return vUniqSortedBig(ks)
+	case 17, 18: // a 257-bit root with all 256 byte branches (18: and the empty key: every label bit set)
+		return vFullByteFan(id == 18)
 	case 14: // a key that is also an inner node with all 16 high-nibble branches (17 labels)
 		ks := []string{"k"}
 		for h := 0; h < 16; h++ {
@@ -240,6 +282,22 @@ func vSkeleton(id int) []string {
 	panic("unknown skeleton")
 }
 
+// vFullByteFan: the 256 one-byte keys 0x00..0xff, two of them extended (so the root is not the
+// only inner node), optionally with the empty key.
+func vFullByteFan(withEmpty bool) []string {
+	var ks []string
+	if withEmpty {
+		ks = append(ks, "")
+	}
+	for b := 0; b < 256; b++ {
+		ks = append(ks, string([]byte{byte(b)}))
+		if b == 0x7f || b == 0xff {
+			ks = append(ks, string([]byte{byte(b), 0x00}), string([]byte{byte(b), 0xff}))
+		}
+	}
+	return ks
+}
+
 // vLenDiverse: keys whose lengths sit on and around 32/64/128/256-byte boundaries: a chain
 // of prefixes of one 300-byte pattern (lengths 0, 1, 31, 32, 33, 63, 64, 65, 127, 128, 129,
 // 255, 256, 257, 300), plus for kind 1 a diverging sibling (prefix + 0xff + 40 bytes) at
@@ -261,6 +319,53 @@ func vLenDiverse(kind int) []string {
 		}
 	}
 	return vUniqSorted(ks)
+}
+
+// vUniqSortedBig: merge sort (the insertion sort of vUniqSorted is quadratic) + de-duplication.
+func vUniqSortedBig(ks []string) []string {
+	if len(ks) > 1 {
+		tmp := make([]string, len(ks))
+		for w := 1; w < len(ks); w *= 2 {
+			for lo := 0; lo < len(ks); lo += 2 * w {
+				mid, hi := lo+w, lo+2*w
+				if mid > len(ks) {
+					mid = len(ks)
+				}
+				if hi > len(ks) {
+					hi = len(ks)
+				}
+				i, j, k := lo, mid, lo
+				for i < mid && j < hi {
+					if ks[j] < ks[i] {
+						tmp[k] = ks[j]
+						j++
+					} else {
+						tmp[k] = ks[i]
+						i++
+					}
+					k++
+				}
+				for i < mid {
+					tmp[k] = ks[i]
+					i++
+					k++
+				}
+				for j < hi {
+					tmp[k] = ks[j]
+					j++
+					k++
+				}
+			}
+			ks, tmp = tmp, ks
+		}
+	}
+	out := ks[:0]
+	for i, k := range ks {
+		if i == 0 || k != ks[i-1] {
+			out = append(out, k)
+		}
+	}
+	return out
 }
 
 func vSorted(ks []string) []string {
